@@ -212,7 +212,7 @@ def ev(node, env):
             args = [ev(a, env) for a in node.args]
             if len(args) != len(params):
                 raise Unsupported('arity of self.%s' % node.func.attr)
-            genv = {k: v for k, v in env.items() if isinstance(k, str) and (k.startswith('self.') or (k.startswith('__') and k != '__mod__'))}
+            genv = {k: v for k, v in env.items() if isinstance(k, str) and (k.startswith('self.') or (k.startswith('__') and k not in ('__mod__', '__funcs__')))}      # the method's own module resolves its free names
             genv.update(zip(params, args))
             rv, out = run_function(g, genv)
             for k, v in out.items():
